@@ -23,6 +23,11 @@
 #include <nano/splitter.h>
 #include <nano/tuner.h>
 #include <nano/wlearner.h>
+#include <nano/wlearner/criterion.h>
+#include <nano/gboost/enums.h>
+#include <nano/dataset/scaling.h>
+#include <nano/solver/lstep.h>
+#include <nano/task.h>
 #include <sstream>
 
 using namespace nano;
@@ -42,9 +47,10 @@ template <>
 nano::enum_map_t<verifenum::color_t> nano::enum_string<verifenum::color_t>()
 {
     return {
-        {  verifenum::color_t::red,   "red"},
-        {verifenum::color_t::green, "green"},
-        { verifenum::color_t::blue,  "blue"}
+        // (every name is a strict prefix of the following ones, like aic / aicc in the library: reads must match whole names)
+        {  verifenum::color_t::red,     "hue"},
+        {verifenum::color_t::green,    "hues"},
+        { verifenum::color_t::blue, "huesome"}
     };
 }
 
@@ -136,7 +142,7 @@ LEorLT comp(bool le)
 
 const char* str_of_token(const std::string& tok)
 {
-    return tok == "s0" ? "initial" : tok == "num" ? "1.5" : tok == "garbage" ? "abc" : tok == "pair" ? "1,2" : "green";
+    return tok == "s0" ? "initial" : tok == "num" ? "1.5" : tok == "garbage" ? "abc" : tok == "pair" ? "1,2" : "hues";
 }
 
 parameter_t construct(const cfg_t& c, const tval_t& v)
@@ -308,7 +314,7 @@ int replay(const char* plan_path, const char* out_path)
             }
             else if (s.act == "AssignES")
             {
-                assigned_text = ai(0) == 0 ? "red" : ai(0) == 1 ? "green" : ai(0) == 2 ? "blue" : "magenta";
+                assigned_text = ai(0) == 0 ? "hue" : ai(0) == 1 ? "hues" : ai(0) == 2 ? "huesome" : "magenta";
                 param         = assigned_text;
             }
             else if (s.act == "ReadI")
@@ -435,7 +441,48 @@ struct pinfo_t
     bool                minLE{true}, maxLE{true}, valLE{true};
     std::vector<double> reals; // min, value(s), max
     std::string         text;
+    bool                typedOK{true}; // enumerations of the library: the typed read is the member with the stored name
 };
+
+// the typed read of an enumeration parameter of the library, as its name: value<tenum>() must be the member whose name is stored
+template <class tenum>
+std::string typed_name(const parameter_t& p)
+{
+    const auto value = p.value<tenum>();
+    for (const auto& [option, name] : enum_string<tenum>())
+    {
+        if (option == value)
+        {
+            return name;
+        }
+    }
+    return "?";
+}
+
+std::string typed_enum_name(const parameter_t& p, const std::string& stored)
+{
+    const auto& name = p.name();
+    const auto  ends = [&](const char* suffix)
+    {
+        const auto n = std::strlen(suffix);
+        return name.size() >= n && name.compare(name.size() - n, n, suffix) == 0;
+    };
+    try
+    {
+        return name == "wlearner::criterion"            ? typed_name<wlearner_criterion>(p)
+             : name == "linear::scaling"                ? typed_name<scaling_type>(p)
+             : ends("::interpolation")                  ? typed_name<interpolation_type>(p)
+             : name == "gboost::wscale"                 ? typed_name<gboost_wscale>(p)
+             : name == "gboost::shrinkage"              ? typed_name<gboost_shrinkage>(p)
+             : name == "gboost::subsample"              ? typed_name<gboost_subsample>(p)
+             : name == "datasource::linear::task"       ? typed_name<task_type>(p)
+                                                        : stored;
+    }
+    catch (const std::exception&)
+    {
+        return "threw";
+    }
+}
 
 pinfo_t info(const parameter_t& p)
 {
@@ -445,6 +492,7 @@ pinfo_t info(const parameter_t& p)
                               out.kind = "enum";
                               out.text = e.m_value;
                               out.valLE = std::find(e.m_domain.begin(), e.m_domain.end(), e.m_value) != e.m_domain.end();
+                              out.typedOK = typed_enum_name(p, e.m_value) == e.m_value;
                           },
                           [&](const parameter_t::irange_t& r)
                           {
@@ -521,7 +569,8 @@ vt::J param_event(const char* e, int64_t obj, const parameter_t& p, const std::v
         .b("maxLE", pi.maxLE)
         .b("valLE", pi.valLE)
         .a("r", ranks(reals))
-        .s("text", pi.text);
+        .s("text", pi.text)
+        .b("typedOK", pi.typedOK);
 }
 
 // a deterministic observation of what an object DOES (bit patterns of the results of one fixed call): an object and its clone with
@@ -809,6 +858,31 @@ void sweep_object(const std::string& factory, const std::string& id, const tobje
                         .b("differs", !(target.parameter(name) == p0)));
         }
     };
+    // enumerations: every member of the domain is accepted by name and read back (stored name and typed read) as assigned
+    {
+        auto scratch = object.clone();
+        for (const auto& p0 : object.parameters())
+        {
+            if (const auto* e = std::get_if<parameter_t::enum_t>(&p0.storage()); e != nullptr)
+            {
+                bool ok = true;
+                for (const auto& option : e->m_domain)
+                {
+                    try
+                    {
+                        auto& pc = scratch->parameter(p0.name());
+                        pc       = option;
+                        ok       = ok && std::get<parameter_t::enum_t>(pc.storage()).m_value == option && typed_enum_name(pc, option) == option;
+                    }
+                    catch (const std::exception&)
+                    {
+                        ok = false;
+                    }
+                }
+                vt::put(vt::J("EnumAll").i("obj", a).s("name", p0.name()).i("members", static_cast<int64_t>(e->m_domain.size())).b("ok", ok));
+            }
+        }
+    }
     // configure the original away from its defaults, clone it, then modify the clone
     auto original = object.clone();
     vt::put(vt::J("Clone").i("obj", a + 100000).i("of", a).b("idOK", original->type_id() == id).b("equal", original->parameters() == object.parameters()).i(
